@@ -29,6 +29,7 @@ package store
 //@   reads hdr
 
 //@ func (*ImmuStore).readTx
+//@   ensures c06_gate: r0 == nil && !allowPrecommitted ==> txID <= s.committedTxID
 //@   ensures hdr: r0 == nil ==> tx.header != nil && (tx.header.Version == 0 || tx.header.Version == 1)
 //@   ensures c04_entries: r0 == nil ==> tx.entries == old(tx.entries) && 0 <= tx.header.NEntries && tx.header.NEntries <= len(tx.entries)
 //@   assigns internal, tx
